@@ -108,4 +108,16 @@ CHECKS = {
         "text": "The reference (mc/refs/chords.py, no cherab/raysect import) clips the ray against every cell (slab clipping for boxes; ray-cylinder / plane / half-plane events for (R,phi,Z) grids) with lo/hi bounds from cells shrunk/grown by 5e-9 m, and is cross-checked against a closed-form annulus chord in every cylinder case. Oracles: entries sum to the chord, per-cell entry within two integration steps, masked / -1 cells exactly zero and bins = max+1, merged-map entry = sum of its cells' identity-map entries (1e-12), periodic images give the same vector, no exception for rays inside the primitive; pipelines 0D/2D reproduce the direct trace.",
         "note": "raysect displaces each pass start by EPSILON=1e-9 m (sum tolerance 4e-9 + 1e-12 scale); passes shorter than 0.1 step may be skipped by the documented algorithm; Ray(extinction_prob=0) because Russian roulette is random; the literal two-step bound is exceeded for cells crossed in k>2 disjoint intervals on periodic grids (listed known finding, bound k steps enforced there).",
     },
+    "C09": {
+        "engine": "L",
+        "technique": "bounded-exhaustive lattice over elements (Z in {1,2,6,10,18}; thorough 1..18) x three analytic rate families x (n_e, T_e) grids x donor classes x 11 input representations x every entry point (core, interpolators1d/2d, equilibrium-mapped), compared with the closed-form detailed-balance recurrence",
+        "text": "Every lattice point is solved by the real entry points and compared with the closed-form recurrence x_(z+1)/x_z = S_z/(alpha+(n_D/n_e)C)_(z+1) evaluated in log space: fractions in range and summing to one, balance residual, densities = n_el x fractions, neutrality, agreement of every representation and wrapper with the scalar call, with-donor vs without-donor distinguishable. Every call of real code is bounded by a CPU-time watchdog (a non-returning solve is a violation).",
+        "note": "Abundance tolerance 1e-7 (the design's '1e-7 of the largest flux' in the x norm; measured worst 7e-9); wrappers compared differentially with their core entry point; mock AtomicData returning plain callables.",
+    },
+    "C11": {
+        "engine": "L+H",
+        "technique": "exhaustive enumeration of all geometry matrices of shapes 1x1..3x2 over {0,1,2} (thorough {0,1,2,5}, 3x3) x measurement vectors x initial guesses x relaxation x iteration limits x tolerances x penalties; SART iterates compared step by step with a numpy transcription of the documented update rule, NNLS/LSQ/SVD results certified by KKT / normal equations / exact rational pseudo-inverse",
+        "text": "The SART iteration is treated as a history: the returned iterate and the whole convergence list must equal the reference after k = 1,2,3,... iterations, including the stopping decision; non-negativity and fixed points are checked. NNLS results must satisfy the KKT conditions of the stacked problem, LSQ the normal equations, SVD the exact rational W^+ b (fractions), and reported residual norms must equal |Cx-d| recomputed.",
+        "note": "Rounding-ambiguous stop decisions are accepted either way and counted; a failed NNLS certificate is attributed to scipy (known finding) only if scipy.optimize.nnls called directly on the documented stacked system returns the same vector, otherwise to the wrapper.",
+    },
 }
